@@ -168,6 +168,8 @@ pub struct RejFile {
     pub minus: Vec<u8>,
     pub plus: Vec<u8>,
     pub hunks: Vec<RejHunk>,
+    /// number of ---/+++ sections (more than one when the failing patch has several entries for the file)
+    pub sections: usize,
 }
 
 pub fn read_rej(data: &[u8]) -> Result<RejFile, String> {
@@ -191,8 +193,20 @@ pub fn read_rej(data: &[u8]) -> Result<RejFile, String> {
         _ => return Err("no ---/+++ header in reject file".into()),
     };
     let mut hunks = Vec::new();
+    let mut sections = 1;
     while i < lines.len() {
         let l = &lines[i];
+        if [&b"diff --git "[..], b"index ", b"old mode ", b"new mode ", b"new file mode ", b"deleted file mode ", b"similarity index ", b"rename from ", b"rename to "].iter().any(|p| l.starts_with(p)) {
+            // git's extended header of another entry
+            i += 1;
+            continue;
+        }
+        if l.starts_with(b"--- ") && i + 1 < lines.len() && lines[i + 1].starts_with(b"+++ ") {
+            // the hunks of another entry for the same file
+            sections += 1;
+            i += 2;
+            continue;
+        }
         let s = String::from_utf8_lossy(l).into_owned();
         let Some(rest) = s.strip_prefix("@@ -") else { return Err(format!("expected hunk header, found {:?}", s)) };
         let parse_range = |t: &str| -> Option<(u64, usize)> {
@@ -252,7 +266,7 @@ pub fn read_rej(data: &[u8]) -> Result<RejFile, String> {
         }
         hunks.push(RejHunk { old_pos: zero_based(o.0, old.len()), new_pos: zero_based(n.0, new.len()), old, new });
     }
-    Ok(RejFile { minus, plus, hunks })
+    Ok(RejFile { minus, plus, hunks, sections })
 }
 
 pub fn rej_hunk_of(h: &HHunk) -> RejHunk {
